@@ -195,6 +195,10 @@ def oracle_plaintext(raw: str, obs: Dict[str, Any]) -> Optional[Dict[str, Any]]:
     if obs.get('exc'):
         return {'class': 'exception', 'what': 'rendering raised ' + obs['exc'][:400]}
     want = inspect.cleandoc(raw)
+    if want.strip() == '':
+        # nothing to show: pydoctor treats an all-white-space docstring as no docstring
+        if _html.unescape(re.sub(r'<[^>]*>', '', obs['html'])).strip() in ('', 'Undocumented'):
+            return None
     root = parse(obs['html'])
     ps = find_all(root, lambda e: e[0] == 'p')
     if len(ps) != 1 or ps[0][1].get('class') != 'pre':
